@@ -5,6 +5,7 @@ import (
 	"go/ast"
 	"go/token"
 	"go/types"
+	"strings"
 
 	"golang.org/x/tools/go/packages"
 
@@ -378,7 +379,7 @@ func ruleWaitImplementors() check.Rule {
 	return check.Rule{
 		Name:        "WAIT-IMPLEMENTORS",
 		NeedControl: true,
-		Doc:  "every method named Wait (and IsClosed) declared on a type of package ro that implements Subscription is subscriptionImpl's own, or a wrapper all of whose paths pass through the Wait/IsClosed of the Subscription it embeds or holds: a shortcut that returns on another condition (for instance the subscriber's status word, which flips before the terminal callback runs) lets Wait return before the subscription is closed",
+		Doc:         "every method named Wait (and IsClosed) declared on a type of package ro that implements Subscription is subscriptionImpl's own, or a wrapper all of whose paths pass through the Wait/IsClosed of the Subscription it embeds or holds: a shortcut that returns on another condition (for instance the subscriber's status word, which flips before the terminal callback runs) lets Wait return before the subscription is closed",
 		Run: func(c *check.Ctx) {
 			m := c.M
 			p := m.Obj.Ro
@@ -521,6 +522,49 @@ func ruleCallbackReentrancy() check.Rule {
 	}
 }
 
+// heldThroughInlining returns the locks held at n, with locks named by parameters of the helper declarations on the
+// inlining stack renamed to the argument the caller passed (mu *sync.Mutex <- &mu).
+func heldThroughInlining(m *model.Model, h *heldDB, p *packages.Package, n ast.Node, stack []*ast.CallExpr) lockset.Set {
+	held := h.heldAt(p, n).Clone()
+	for i := len(stack) - 1; i >= 0; i-- {
+		call := stack[i]
+		// the package of the call site: the SC's or an outer helper's; types.Info lookups tolerate both via Callee
+		var info *types.Info
+		for _, pk := range m.Pkgs {
+			if _, ok := pk.TypesInfo.Types[call.Fun]; ok {
+				info = pk.TypesInfo
+				break
+			}
+		}
+		if info == nil {
+			continue
+		}
+		cl := model.Callee(info, call)
+		d := m.Decls[cl]
+		if cl == nil || d == nil {
+			continue
+		}
+		ps := model.FlattenParams(d.Pkg.TypesInfo, d.Decl.Type.Params)
+		for j, pv := range ps {
+			if pv == nil || j >= len(call.Args) {
+				continue
+			}
+			from := fmt.Sprintf("%s@%d", pv.Name(), pv.Pos())
+			to := lockset.KeyOf(info, call.Args[j])
+			if to == "" {
+				continue
+			}
+			for k := range held {
+				if k == from || strings.HasPrefix(k, from+".") {
+					delete(held, k)
+					held[to+k[len(from):]] = true
+				}
+			}
+		}
+	}
+	return held
+}
+
 // NO-EMIT-UNDER-TEARDOWN-LOCK: an operator's teardown runs synchronously inside the notification that ends its
 // output (terminal) or that makes downstream unsubscribe (Take, First, an observer calling Unsubscribe).
 func ruleNoEmitUnderTeardownLock() check.Rule {
@@ -565,7 +609,7 @@ func ruleNoEmitUnderTeardownLock() check.Rule {
 					if !e.ToDest || e.Forwarder {
 						continue
 					}
-					held := h.heldAt(e.Pkg, e.Node)
+					held := heldThroughInlining(m, h, e.Pkg, e.Node, e.Stack)
 					for k, lockPos := range tdLocks {
 						if !held[k] {
 							continue
@@ -573,6 +617,21 @@ func ruleNoEmitUnderTeardownLock() check.Rule {
 						cnt++
 						key := fmt.Sprintf("%s/%s/emit-under-teardown-lock#%d", sc, model.CtxKey(e.Ctx, e.Slot), cnt)
 						c.Report(armed, key, e.Pos, "the %s notification is sent to the destination while %s is held, and the operator's teardown (%s) takes the same lock: when this notification ends the output, or downstream unsubscribes inside it, the teardown runs synchronously and dead-locks", []string{"Next", "Error", "Complete"}[e.Kind], lockShort(k), c.Prog.Rel(lockPos))
+					}
+				}
+				// subscribing the destination itself to something delivers to it synchronously (replaying subjects)
+				for _, ss := range sc.SubSites {
+					if ss.Observer == nil || ss.Observer.Kind != model.AVDest {
+						continue
+					}
+					held := h.heldAt(ss.Pkg, ss.Call)
+					for k, lockPos := range tdLocks {
+						if !held[k] {
+							continue
+						}
+						cnt++
+						key := fmt.Sprintf("%s/subscribe-destination-under-teardown-lock#%d", ss.Key, cnt)
+						c.Report(armed, key, ss.Pos, "the destination is subscribed to an observable while %s is held, and the operator's teardown (%s) takes the same lock: a source that notifies synchronously on subscription (a replaying or behaviour subject) runs the destination's callbacks under the lock, and a terminal or an unsubscription inside them dead-locks", lockShort(k), c.Prog.Rel(lockPos))
 					}
 				}
 				if cnt == 0 && armed {
